@@ -120,8 +120,8 @@ func runCheck(o *options) int {
 	var results []*funcResult
 	for _, key := range eng.cs.Order {
 		fc := eng.cs.Funcs[key]
-		if fc.Trusted {
-			continue
+		if fc.Trusted && !fc.IsPart {
+			continue // assumed contract; with "partial kinds" the body is still checked for those kinds
 		}
 		if len(wantFn) > 0 && !wantFn[key] {
 			continue
